@@ -415,6 +415,26 @@ impl Ready<Map> for MapBuilder<WithInput> {
                 ),
                 None => self.input.0,
             };
+            // The expressions can only refer to columns of the input
+            let input_data_type = crate::data_type::DataTyped::data_type(input.as_ref());
+            let input_columns = input_data_type.hierarchy();
+            for expr in map
+                .named_exprs
+                .iter()
+                .map(|(_, expr)| expr)
+                .chain(map.filter.iter())
+            {
+                if let Some(column) = expr
+                    .columns()
+                    .into_iter()
+                    .find(|column| input_columns.get(column).is_none())
+                {
+                    return Err(Error::invalid_relation(format!(
+                        "{expr}: column {column} is unknown or ambiguous in {}",
+                        input.name()
+                    )));
+                }
+            }
             // Build the Relation
             Ok(Map::new(
                 name,
